@@ -118,13 +118,22 @@ def process_outputs(
 
     conf_outputs = list(rtconfig['skip']['outputs']) if rtconfig else []
 
+    # Which of succeeded/failed to produce: failed if configured, or if nothing
+    # is configured and the task cannot complete without it (failed required).
+    emit_failed = TASK_OUTPUT_FAILED in conf_outputs or (
+        not conf_outputs
+        and TASK_OUTPUT_FAILED in set(
+            itask.state.outputs.iter_required_messages()
+        )
+    )
+
     # Send the rest of our outputs, unless they are succeeded or failed,
     # which we hold back, to prevent warnings about pre-requisites being
     # unmet being shown because a "finished" output happens to come first.
     for message in itask.state.outputs.iter_required_messages(
         disable=(
             TASK_OUTPUT_SUCCEEDED
-            if TASK_OUTPUT_FAILED in conf_outputs
+            if emit_failed
             else TASK_OUTPUT_FAILED
         )
     ):
@@ -143,7 +152,7 @@ def process_outputs(
         if trigger in conf_outputs
     )
 
-    if TASK_OUTPUT_FAILED in conf_outputs:
+    if emit_failed:
         result.add(TASK_OUTPUT_FAILED)
     else:
         result.add(TASK_OUTPUT_SUCCEEDED)
